@@ -333,22 +333,7 @@ fn build_filter_expr(
     }
 
     // Find inner column
-    let inner_col_name = &pred.inner_col;
-    let unqualified_name = if let Some(dot_pos) = inner_col_name.find('.') {
-        &inner_col_name[dot_pos + 1..]
-    } else {
-        inner_col_name.as_str()
-    };
-
-    let inner_field = inner_schema.fields().iter().find(|f| {
-        f.name == *inner_col_name
-            || f.name == unqualified_name
-            || inner_col_name.ends_with(&format!(".{}", f.name))
-            || f.name.ends_with(&format!(".{}", unqualified_name))
-            || f.qualified_name() == *inner_col_name
-    });
-
-    let inner_field = inner_field?;
+    let inner_field = find_inner_field(&inner_schema, &pred.inner_col)?;
 
     // Use the relation qualifier if available for proper column resolution
     let inner_expr = if inner_field.relation.is_some() {
@@ -357,10 +342,41 @@ fn build_filter_expr(
         Expr::column(&inner_field.name)
     };
 
+    // CorrelationPredicate::op is oriented `outer OP inner` (see
+    // try_extract_correlation); emitting `inner OP outer` reversed every
+    // asymmetric comparison (`t1.b <= t2.b` became `t2.b <= t1.b`).
     Some(Expr::BinaryExpr {
-        left: Box::new(inner_expr),
+        left: Box::new(pred.outer_expr.clone()),
         op: pred.op,
-        right: Box::new(pred.outer_expr.clone()),
+        right: Box::new(inner_expr),
+    })
+}
+
+
+/// Find the inner-schema field a correlation predicate's inner column denotes.
+/// An exact (qualified) match wins; the name-only fallbacks are used only when
+/// no field carries that qualifier — otherwise, with an inner join of two
+/// relations that both have a column `c`, `x3.c` resolved to `x2.c`.
+fn find_inner_field<'a>(
+    inner_schema: &'a PlanSchema,
+    inner_col_name: &str,
+) -> Option<&'a crate::planner::SchemaField> {
+    if let Some(f) = inner_schema
+        .fields()
+        .iter()
+        .find(|f| f.qualified_name() == inner_col_name)
+    {
+        return Some(f);
+    }
+    let unqualified_name = match inner_col_name.find('.') {
+        Some(dot_pos) => &inner_col_name[dot_pos + 1..],
+        None => inner_col_name,
+    };
+    inner_schema.fields().iter().find(|f| {
+        f.name == inner_col_name
+            || f.name == unqualified_name
+            || inner_col_name.ends_with(&format!(".{}", f.name))
+            || f.name.ends_with(&format!(".{}", unqualified_name))
     })
 }
 
@@ -1414,22 +1430,9 @@ fn build_join_conditions(
             continue;
         }
 
-        // Parse the inner column name (might be qualified like "o.user_id")
-        let inner_col_name = &pred.inner_col;
-        let unqualified_name = if let Some(dot_pos) = inner_col_name.find('.') {
-            &inner_col_name[dot_pos + 1..]
-        } else {
-            inner_col_name.as_str()
-        };
-
-        // Find the actual column in the inner schema
-        let inner_field = inner_schema.fields().iter().find(|f| {
-            f.name == *inner_col_name
-                || f.name == unqualified_name
-                || inner_col_name.ends_with(&format!(".{}", f.name))
-                || f.name.ends_with(&format!(".{}", unqualified_name))
-                || f.qualified_name() == *inner_col_name
-        });
+        // Find the actual column in the inner schema (the name might be
+        // qualified like "o.user_id")
+        let inner_field = find_inner_field(&inner_schema, &pred.inner_col);
 
         if inner_field.is_none() {
             continue;
